@@ -141,6 +141,11 @@ ReturnedMeansStored == [][\A w \in Writers : (ReturnStep(w) /\ ~dry) => dest'.k 
 RaisedKeeps == AllFinal =>
    \/ dest.k = "new" \/ dest = D(dest0, NoW)
    \/ (dest.k = "absent" /\ Kind = "py" /\ \E v \in Writers : \E i \in DOMAIN hist : hist[i] = <<v, "pycompile", "err">>)
+\* a failed I/O step of putData() (directory creation, temporary file, write, close, rename) surfaces: that writer
+\* ends by raising - it never swallows the failure and returns normally
+IoSteps == {"makedirs", "mkstemp", "write", "close", "rename"}
+FailureSurfaces == \A w \in Writers : (Final(w) /\ \E i \in DOMAIN hist : hist[i][1] = w /\ hist[i][2] \in IoSteps /\ hist[i][3] = "err")
+                                        => pc[w] = "raised"
 DryRunInert == dry => (hist = <<>> /\ dest = D(dest0, NoW) /\ \A w \in Writers : temps[w] = "none")
 Termination == <>AllFinal
 =============================================================================
